@@ -140,6 +140,16 @@ def set_ops(fn, cls, op):
         d = dotted(recv)
         if d and d.startswith("self.") and d.count(".") == 1:
             found.add(d.split(".")[1])
+        elif isinstance(recv, ast.Name):
+            # idiom: for subset in (self._a, self._b, ...): subset.<op>(key)
+            loop = enclosing(c, ast.For)
+            while loop is not None and not (isinstance(loop.target, ast.Name) and loop.target.id == recv.id):
+                loop = enclosing(loop, ast.For)
+            if loop is not None and isinstance(loop.iter, (ast.Tuple, ast.List)):
+                for e in loop.iter.elts:
+                    de = dotted(e)
+                    if de and de.startswith("self.") and de.count(".") == 1:
+                        found.add(de.split(".")[1])
         elif isinstance(recv, ast.Call) and call_name(recv) == "getattr" and len(recv.args) == 2 and isinstance(recv.args[1], ast.Name):
             loop = enclosing(c, ast.For)
             while loop is not None and not (isinstance(loop.target, ast.Name) and loop.target.id == recv.args[1].id):
